@@ -574,6 +574,7 @@ func (cp *ClientPromise) Fulfill(c *Client) {
 	if rh == cp.h {
 		rh.refs += refs // resolved to itself (as before)
 	} else if rh != nil {
+		verifYield(&rh.mu)
 		rh.mu.Lock()
 		rh = resolveHook(rh)
 		if rh != nil {
